@@ -113,6 +113,14 @@ def prepare_examples(ctx, extreme_rain=True):
         return ex
     from core import REPO
     shutil.copytree(os.path.join(REPO, "examples"), ex)
+    # a second measurement date after the first fertilisation (project ex1): exercises the measurement-overwrite day
+    ep = os.path.join(ex, "project", "ex1", "endit_ex1.txt")
+    t = open(ep).read().split("\n")
+    row = "ALLE      04201982 0030 0020 0010 1 0.250 0.250 0.250 0010   0010    0010     0.250 0.250  0.250  "
+    t = [l for l in t if l.strip()]
+    if t and t[-1].strip() == "end":
+        t = t[:-1] + [row, "end"]
+    open(ep, "w").write("\n".join(t) + "\n")
     if extreme_rain:
         rnd = random.Random(ctx.seed)
         src = os.path.join(ex, "weather", "historical")
